@@ -92,8 +92,15 @@ func (c JSONMapCodec) appendKV(data []byte, k string, v any) []byte {
 
 func (c JSONMapCodec) Read(data []byte, ptr unsafe.Pointer, wt plenccore.WireType) (n int, err error) {
 	count, n := plenccore.ReadVarUint(data)
-	if n == 0 {
+	if n == 0 && len(data) == 0 {
 		return 0, nil
+	}
+	if n <= 0 {
+		return 0, fmt.Errorf("bad count in map")
+	}
+	// Every entry takes at least one byte for its length
+	if count > uint64(len(data)-n) {
+		return 0, fmt.Errorf("map count %d exceeds remaining data %d", count, len(data)-n)
 	}
 	offset := n
 
@@ -106,10 +113,13 @@ func (c JSONMapCodec) Read(data []byte, ptr unsafe.Pointer, wt plenccore.WireTyp
 	for ; count > 0; count-- {
 		verifYield("json.map")
 		l, n := plenccore.ReadVarUint(data[offset:])
-		if n < 0 {
+		if n <= 0 {
 			return 0, fmt.Errorf("bad length in map")
 		}
 		offset += n
+		if l > uint64(len(data)-offset) {
+			return 0, fmt.Errorf("map entry length %d exceeds remaining data %d", l, len(data)-offset)
+		}
 		var key string
 		var val any
 
@@ -174,21 +184,38 @@ func (c JSONArrayCodec) append(data []byte, ptr unsafe.Pointer) []byte {
 
 func (c JSONArrayCodec) Read(data []byte, ptr unsafe.Pointer, wt plenccore.WireType) (n int, err error) {
 	count, n := plenccore.ReadVarUint(data)
+	if n < 0 || (n == 0 && len(data) != 0) {
+		return 0, fmt.Errorf("bad count in array")
+	}
+	// Every entry takes at least one byte for its length
+	if count > uint64(len(data)-n) {
+		return 0, fmt.Errorf("array count %d exceeds remaining data %d", count, len(data)-n)
+	}
 	offset := n
 
+	// The decoded slice holds exactly the encoded elements, also when the
+	// target already holds a slice
 	a := *(*[]any)(ptr)
-	if a == nil {
+	if a == nil || cap(a) < int(count) {
 		a = make([]any, count)
-		*(*[]any)(ptr) = a
+	} else {
+		a = a[:count]
+		for i := range a {
+			a[i] = nil
+		}
 	}
+	*(*[]any)(ptr) = a
 
 	for i := range a {
 		verifYield("json.array")
 		l, n := plenccore.ReadVarUint(data[offset:])
-		if n < 0 {
-			return 0, fmt.Errorf("bad length in map")
+		if n <= 0 {
+			return 0, fmt.Errorf("bad length in array")
 		}
 		offset += n
+		if l > uint64(len(data)-offset) {
+			return 0, fmt.Errorf("array entry length %d exceeds remaining data %d", l, len(data)-offset)
+		}
 
 		n, err := readJSONKV(data[offset:offset+int(l)], nil, &a[i])
 		if err != nil {
@@ -305,15 +332,24 @@ func readJSONKV(data []byte, key *string, val *any) (n int, err error) {
 	for offset < len(data) {
 		verifYield("json.kv")
 		wt, index, n := plenccore.ReadTag(data[offset:])
+		if n <= 0 {
+			return 0, fmt.Errorf("invalid tag in JSON entry")
+		}
 		offset += n
 		switch index {
 		case 1:
 			// When using this for reading arrays we simply don't see this index
 			l, n := plenccore.ReadVarUint(data[offset:])
-			if n < 0 {
+			if n <= 0 {
 				return 0, fmt.Errorf("bad length on string field")
 			}
 			offset += n
+			if l > uint64(len(data)-offset) {
+				return 0, fmt.Errorf("length %d of string field exceeds remaining data %d", l, len(data)-offset)
+			}
+			if key == nil {
+				return 0, fmt.Errorf("unexpected key in JSON array entry")
+			}
 
 			n, err := StringCodec{}.Read(data[offset:offset+int(l)], unsafe.Pointer(key), wt)
 			if err != nil {
@@ -322,7 +358,7 @@ func readJSONKV(data []byte, key *string, val *any) (n int, err error) {
 			offset += n
 		case 2:
 			v, n := plenccore.ReadVarUint(data[offset:])
-			if n < 0 {
+			if n <= 0 {
 				return 0, fmt.Errorf("invalid map type field")
 			}
 			jType = jsonType(v)
@@ -331,10 +367,13 @@ func readJSONKV(data []byte, key *string, val *any) (n int, err error) {
 			switch jType {
 			case jsonTypeString:
 				l, n := plenccore.ReadVarUint(data[offset:])
-				if n < 0 {
+				if n <= 0 {
 					return 0, fmt.Errorf("bad length on string field")
 				}
 				offset += n
+				if l > uint64(len(data)-offset) {
+					return 0, fmt.Errorf("length %d of string field exceeds remaining data %d", l, len(data)-offset)
+				}
 				var v string
 				n, err := StringCodec{}.Read(data[offset:offset+int(l)], unsafe.Pointer(&v), wt)
 				if err != nil {
@@ -390,10 +429,13 @@ func readJSONKV(data []byte, key *string, val *any) (n int, err error) {
 
 			case jsonTypeNumber:
 				l, n := plenccore.ReadVarUint(data[offset:])
-				if n < 0 {
+				if n <= 0 {
 					return 0, fmt.Errorf("bad length on JSON number field")
 				}
 				offset += n
+				if l > uint64(len(data)-offset) {
+					return 0, fmt.Errorf("length %d of JSON number field exceeds remaining data %d", l, len(data)-offset)
+				}
 				var v json.Number
 				n, err := StringCodec{}.Read(data[offset:offset+int(l)], unsafe.Pointer(&v), wt)
 				if err != nil {
